@@ -1,34 +1,41 @@
-(** Correspondence record for C12: watchers, how they were driven, the schedule of
-    reads, and what the implementation did (writes to the child's stdin per read,
-    which IO threads died of ResponseNotAccepted, what the call raised), plus what
-    the real [re.findall] counted for every pattern on every stream's whole text. *)
+(** Correspondence record for C12: configured and per-call watchers, sudo set-up, how
+    the watchers were driven, and one or two successive calls reusing the same
+    watcher objects / list -- for each call the schedule of reads and what the
+    implementation did (writes to the child's stdin per read, which IO threads died
+    of ResponseNotAccepted, what the call raised) -- plus what the real [re.findall]
+    counted for every pattern on every stream's whole text. *)
 From InvokeVerif Require Export Model.WatchModel Spec.C12Spec.
 
 (** The variant of the model that describes /repo: the code after the fixes
     28f435d / 380f659 (F-C12a, F-C12b repaired). *)
 Definition impl_variant : variant := current.
 
+Record call_obs := mkCall {
+  k_sched : list event;
+  k_writes : list (list string);
+  k_raised : bool * bool;
+  k_exc : option exn
+}.
+
 Record case := mk {
-  c_ws : list watcher;                       (* the caller's watchers *)
-  c_sudo : option (string * string);         (* (prompt, password) when driven through Context.sudo *)
+  c_cfg_ws : list watcher;                   (* config.run.watchers *)
+  c_kw_ws : option (list watcher);           (* watchers= of the call(s), when passed *)
+  c_sudo : option sudo_info;                 (* when driven through Context.sudo *)
   c_how : via;
-  c_sched : list event;
-  c_writes : list (list string);
-  c_raised : bool * bool;
-  c_exc : option exn;
+  c_calls : list call_obs;                   (* successive calls, same objects *)
   c_occ : list (pattern * string * nat)      (* (pattern, text, len(re.findall(pattern, text, re.S))) *)
 }.
 
-Definition all_ws (c : case) : list watcher :=
-  c_ws c ++ match c_sudo c with Some (pr, pw) => [sudo_watcher pr pw] | None => [] end.
-
 Definition writes_eqb (a b : list (list string)) : bool := list_eqb strs_eqb a b.
 
+Definition call_corr (v : variant) (ws : list watcher) (how : via) (k : call_obs) : bool :=
+  let '(w, r) := run v ws (k_sched k) in
+  writes_eqb w (k_writes k)
+  && Bool.eqb (fst r) (fst (k_raised k)) && Bool.eqb (snd r) (snd (k_raised k))
+  && opt_exn_eqb (outcome_exn how r) (k_exc k).
+
 Definition corr_with (v : variant) (c : case) : bool :=
-  let '(w, r) := run v (all_ws c) (c_sched c) in
-  writes_eqb w (c_writes c)
-  && Bool.eqb (fst r) (fst (c_raised c)) && Bool.eqb (snd r) (snd (c_raised c))
-  && opt_exn_eqb (outcome_exn (c_how c) r) (c_exc c).
+  forallb (call_corr v (call_watchers (c_cfg_ws c) (c_kw_ws c) (c_sudo c)) (c_how c)) (c_calls c).
 
 (** the regex-family semantics agrees with the real [re] module on this case *)
 Definition re_ok (c : case) : bool :=
@@ -36,10 +43,9 @@ Definition re_ok (c : case) : bool :=
 
 Definition corr (c : case) : bool := corr_with impl_variant c && re_ok c.
 
-(** would the pre-fix model describe the implementation (informative only: true on a
-    case outside the guard means the old defect is back) *)
+(** would the pre-fix model describe the implementation (informative only) *)
 Definition corr_before_fix (c : case) : bool := corr_with before_fix c.
 
 Definition spec (c : case) : bool :=
-  spec_ok (all_ws c) (c_sched c) (c_how c) (c_writes c) (c_raised c) (c_exc c).
-
+  forallb (fun k => spec_ok (spec_watchers (c_cfg_ws c) (c_kw_ws c) (c_sudo c)) (k_sched k) (c_how c)
+                            (k_writes k) (k_raised k) (k_exc k)) (c_calls c).
